@@ -39,6 +39,9 @@ def main():
     patch = os.path.join(out, "patch.diff")
     rep = {"property": prop, "name": name, "agent_meta": meta}
     sh("cd %s && git checkout -q -- . && git clean -fdq" % wt)
+    # always evaluate against the CURRENT /repo HEAD (the scratch worktree may have been created from an older one)
+    head = sh("git -C /repo rev-parse HEAD").stdout.strip()
+    sh("cd %s && git checkout -q --detach %s" % (wt, head))
     r = sh("cd %s && git apply %s" % (wt, patch))
     if r.returncode != 0:
         print("patch does not apply:", r.stdout)
